@@ -68,6 +68,9 @@ def build(reg, cfg):
     C06.build(sub6, {'SIMUCELL3D_VERIF_CONTACT_MODEL_INDEX': 1})
     for c in sub6.contracts:
         if 'update_face_aabbs' in c.name or 'aabb_intersection_check' in c.name: reg.add(relabel(c, 'as in C06'))
+        # which nodes enter the contact search: dead slots are parked at the origin by node::reset(), so a search that includes them makes the
+        # result depend on where the tissue lies relative to the origin
+        if '<voxel of the node>' in c.name: reg.add(relabel(c, 'as in C06'))
     sub3 = __import__('spec').Registry()
     C03.build(sub3, cfg)
     for c in sub3.contracts:
